@@ -115,6 +115,12 @@ func runUnlikely(c Case, e *env) []Event {
 	}
 	// two bare text runs (no paragraph around them) for the inline / bare placements
 	lead1, lead2 := g.words(45), g.words(45)
+	// now and then the page opens with a data table (marked subtrees after it are marked subtrees all the same)
+	topTable := ""
+	if r.Intn(4) == 0 {
+		topTable = "<table><tr><th>" + g.words(1) + "</th><th>" + g.words(1) + "</th></tr><tr><td>" + g.words(2) + "</td><td>" + g.words(2) +
+			"</td></tr><tr><td>" + g.words(2) + "</td><td>" + g.words(2) + "</td></tr></table>"
+	}
 	blockOf := func(m mk, variant string) string {
 		body := m.body
 		if m.tag == "span" {
@@ -173,7 +179,7 @@ func runUnlikely(c Case, e *env) []Event {
 		if half2 != "" {
 			story += `<div>` + half2 + `</div>`
 		}
-		return "<!DOCTYPE html><html><head></head><body>" + before.String() + "<div>" + story + sibling.String() + "</div>" + after.String() + "</body></html>"
+		return "<!DOCTYPE html><html><head></head><body>" + topTable + before.String() + "<div>" + story + sibling.String() + "</div>" + after.String() + "</body></html>"
 	}
 	var evs []Event
 	for i, v := range []string{"P", "D", "R"} {
